@@ -201,6 +201,30 @@ def a_sites(led, rid, ctx):
         else:
             # recorded finding: reported through known_findings.json (same key)
             led.bad(rid, key, site, "FINDING (%s): %s" % (ent.get("defect", "D10"), ent["reason"]))
+    # modular / saturating arithmetic is not the arithmetic of the integers: wherever a model quantity
+    # goes through it, the result differs from the unbounded one exactly when it matters
+    for prog in (lib, ctx.bin):
+        for f in prog.fns.values():
+            if "/tests" in f.file or "::tests::" in f.defn:
+                continue
+            for c in f.calls:
+                if not (c.name or "").startswith(("saturating_", "wrapping_", "overflowing_")):
+                    continue
+                ty = (c.self_ty or (c.term.get("arg_tys") or [""])[0] or "")
+                if not any(t in ty for t in ("i32", "i64", "i128", "isize", "u32", "u64")):
+                    continue
+                n += 1
+                key = "%s|%s %s" % (f.parent or f.defn, c.name, ty)
+                seen.add(key)
+                ent = table.get(key)
+                if ent is not None and ent["class"] == "SAFE":
+                    led.ok(rid, key, c.span, "SAFE: " + ent["reason"])
+                else:
+                    led.bad(rid, key, c.span,
+                            "%s on %s: a saturated / wrapped value is not the value of the expression — a bound, "
+                            "sum or product computed this way is wrong exactly for the large operands the property "
+                            "is about (saturating addition is not even associative); add a bound argument (SAFE) "
+                            "to arith_sites.json or widen the computation" % (c.name, ty))
     led.floor(rid, "arithmetic sites enumerated", n, 100)
     led.count("ARITH:auto-discharged", n_auto)
     led.count("ARITH:table SAFE", n_safe)
